@@ -221,8 +221,22 @@ func (c *Ctx) newVC(fn *ssa.Function, fc *FuncContract) *VC {
 	if fc == nil {
 		fc = &FuncContract{Name: fn.RelString(c.tpkg)}
 	}
+	so := map[string]bool{}
+	name := fn.RelString(c.tpkg)
+	for _, ti := range c.cf.TypeInvs {
+		if !ti.Stable {
+			continue
+		}
+		for _, o := range ti.Owners {
+			if o == name || (fn.Parent() != nil && fn.Parent().RelString(c.tpkg) == o) {
+				for _, f := range ti.Fields {
+					so["H."+ti.Type+"."+f] = true
+				}
+			}
+		}
+	}
 	return &VC{ctx: c, fn: fn, fc: fc, declSet: map[string]bool{}, arrSort: map[string]string{}, snipCnt: map[string]int{},
-		abstracted: map[string]int{}, strlits: map[string]string{}, calledContracts: map[string]int{}, externals: map[string]int{}, usedTypeInvs: map[string]bool{}}
+		abstracted: map[string]int{}, strlits: map[string]string{}, calledContracts: map[string]int{}, externals: map[string]int{}, usedTypeInvs: map[string]bool{}, stableOwner: so}
 }
 
 // verifyFunc builds the VC of fn for property prop and returns it.
